@@ -1143,43 +1143,43 @@ package keeper
 
 //@ func (e stakingCustomPrecompiledContractRwDelegate) delegate(ctx sdk.Context, delegator sdk.AccAddress, validator sdk.ValAddress, amount sdk.Coin) (err error)
 //@   requires e.contract != nil
-//@   modifies nativeCalls, nativeKind, nativeDelegator, nativeValidator, nativeValidatorSrc, nativeDenom, nativeAmount, nativeLayer, stakingVersion[layer(ctx)], distVersion[layer(ctx)], bankBal[layer(ctx)], authVersion[layer(ctx)], evlog[payload(ctx.EventManager())]
-//@   ensures[C11.delegate_at_most_one_message] (nativeCalls[0] == old(nativeCalls[0]) || nativeCalls[0] == old(nativeCalls[0]) + 1) && (forall n int :: (0 <= n && n < old(nativeCalls[0])) ==> (nativeKind[n] == old(nativeKind[n]) && nativeDelegator[n] == old(nativeDelegator[n]) && nativeValidator[n] == old(nativeValidator[n]) && nativeValidatorSrc[n] == old(nativeValidatorSrc[n]) && nativeDenom[n] == old(nativeDenom[n]) && nativeAmount[n] == old(nativeAmount[n]) && nativeLayer[n] == old(nativeLayer[n])))
+//@   modifies nativeCalls, nativeKind, nativeDelegator, nativeValidator, nativeValidatorSrc, nativeDenom, nativeAmount, nativeLayer, nativeSigChecks, stakingVersion[layer(ctx)], distVersion[layer(ctx)], bankBal[layer(ctx)], authVersion[layer(ctx)], evlog[payload(ctx.EventManager())]
+//@   ensures[C11.delegate_at_most_one_message] (nativeCalls[0] == old(nativeCalls[0]) || nativeCalls[0] == old(nativeCalls[0]) + 1) && ((forall n int :: (0 <= n && n < old(nativeCalls[0])) ==> nativeKind[n] == old(nativeKind[n])) && (forall n int :: (0 <= n && n < old(nativeCalls[0])) ==> nativeDelegator[n] == old(nativeDelegator[n])) && (forall n int :: (0 <= n && n < old(nativeCalls[0])) ==> nativeValidator[n] == old(nativeValidator[n])) && (forall n int :: (0 <= n && n < old(nativeCalls[0])) ==> nativeValidatorSrc[n] == old(nativeValidatorSrc[n])) && (forall n int :: (0 <= n && n < old(nativeCalls[0])) ==> nativeDenom[n] == old(nativeDenom[n])) && (forall n int :: (0 <= n && n < old(nativeCalls[0])) ==> nativeAmount[n] == old(nativeAmount[n])) && (forall n int :: (0 <= n && n < old(nativeCalls[0])) ==> nativeLayer[n] == old(nativeLayer[n])) && (forall n int :: (0 <= n && n < old(nativeCalls[0])) ==> nativeSigChecks[n] == old(nativeSigChecks[n])))
 //@   ensures[C11.delegate_success_means_submitted] err == nil ==> nativeCalls[0] == old(nativeCalls[0]) + 1
-//@   ensures[C11.delegate_message] nativeCalls[0] == old(nativeCalls[0]) + 1 ==> (nativeKind[old(nativeCalls[0])] == 1 && bech32Bytes(nativeDelegator[old(nativeCalls[0])]) == bytes(delegator) && nativeValidator[old(nativeCalls[0])] == codecStr(2, bytes(validator)) && nativeDenom[old(nativeCalls[0])] == amount.Denom && nativeAmount[old(nativeCalls[0])] == iv(amount.Amount) && nativeLayer[old(nativeCalls[0])] == layer(ctx))
+//@   ensures[C11.delegate_message] nativeCalls[0] == old(nativeCalls[0]) + 1 ==> (nativeKind[old(nativeCalls[0])] == 1 && bech32Bytes(nativeDelegator[old(nativeCalls[0])]) == bytes(delegator) && nativeValidator[old(nativeCalls[0])] == codecStr(2, bytes(validator)) && nativeDenom[old(nativeCalls[0])] == amount.Denom && nativeAmount[old(nativeCalls[0])] == iv(amount.Amount) && nativeLayer[old(nativeCalls[0])] == layer(ctx) && nativeSigChecks[old(nativeCalls[0])] == sigChecks[0])
 
 //@ func (e stakingCustomPrecompiledContractRwUnDelegate) undelegate(ctx sdk.Context, delegator sdk.AccAddress, validator sdk.ValAddress, amount sdk.Coin) (err error)
 //@   requires e.contract != nil
-//@   modifies nativeCalls, nativeKind, nativeDelegator, nativeValidator, nativeValidatorSrc, nativeDenom, nativeAmount, nativeLayer, stakingVersion[layer(ctx)], distVersion[layer(ctx)], bankBal[layer(ctx)], authVersion[layer(ctx)], evlog[payload(ctx.EventManager())]
-//@   ensures[C11.undelegate_at_most_one_message] (nativeCalls[0] == old(nativeCalls[0]) || nativeCalls[0] == old(nativeCalls[0]) + 1) && (forall n int :: (0 <= n && n < old(nativeCalls[0])) ==> (nativeKind[n] == old(nativeKind[n]) && nativeDelegator[n] == old(nativeDelegator[n]) && nativeValidator[n] == old(nativeValidator[n]) && nativeValidatorSrc[n] == old(nativeValidatorSrc[n]) && nativeDenom[n] == old(nativeDenom[n]) && nativeAmount[n] == old(nativeAmount[n]) && nativeLayer[n] == old(nativeLayer[n])))
+//@   modifies nativeCalls, nativeKind, nativeDelegator, nativeValidator, nativeValidatorSrc, nativeDenom, nativeAmount, nativeLayer, nativeSigChecks, stakingVersion[layer(ctx)], distVersion[layer(ctx)], bankBal[layer(ctx)], authVersion[layer(ctx)], evlog[payload(ctx.EventManager())]
+//@   ensures[C11.undelegate_at_most_one_message] (nativeCalls[0] == old(nativeCalls[0]) || nativeCalls[0] == old(nativeCalls[0]) + 1) && ((forall n int :: (0 <= n && n < old(nativeCalls[0])) ==> nativeKind[n] == old(nativeKind[n])) && (forall n int :: (0 <= n && n < old(nativeCalls[0])) ==> nativeDelegator[n] == old(nativeDelegator[n])) && (forall n int :: (0 <= n && n < old(nativeCalls[0])) ==> nativeValidator[n] == old(nativeValidator[n])) && (forall n int :: (0 <= n && n < old(nativeCalls[0])) ==> nativeValidatorSrc[n] == old(nativeValidatorSrc[n])) && (forall n int :: (0 <= n && n < old(nativeCalls[0])) ==> nativeDenom[n] == old(nativeDenom[n])) && (forall n int :: (0 <= n && n < old(nativeCalls[0])) ==> nativeAmount[n] == old(nativeAmount[n])) && (forall n int :: (0 <= n && n < old(nativeCalls[0])) ==> nativeLayer[n] == old(nativeLayer[n])) && (forall n int :: (0 <= n && n < old(nativeCalls[0])) ==> nativeSigChecks[n] == old(nativeSigChecks[n])))
 //@   ensures[C11.undelegate_success_means_submitted] err == nil ==> nativeCalls[0] == old(nativeCalls[0]) + 1
-//@   ensures[C11.undelegate_message] nativeCalls[0] == old(nativeCalls[0]) + 1 ==> (nativeKind[old(nativeCalls[0])] == 2 && bech32Bytes(nativeDelegator[old(nativeCalls[0])]) == bytes(delegator) && nativeValidator[old(nativeCalls[0])] == codecStr(2, bytes(validator)) && nativeDenom[old(nativeCalls[0])] == amount.Denom && nativeAmount[old(nativeCalls[0])] == iv(amount.Amount) && nativeLayer[old(nativeCalls[0])] == layer(ctx))
+//@   ensures[C11.undelegate_message] nativeCalls[0] == old(nativeCalls[0]) + 1 ==> (nativeKind[old(nativeCalls[0])] == 2 && bech32Bytes(nativeDelegator[old(nativeCalls[0])]) == bytes(delegator) && nativeValidator[old(nativeCalls[0])] == codecStr(2, bytes(validator)) && nativeDenom[old(nativeCalls[0])] == amount.Denom && nativeAmount[old(nativeCalls[0])] == iv(amount.Amount) && nativeLayer[old(nativeCalls[0])] == layer(ctx) && nativeSigChecks[old(nativeCalls[0])] == sigChecks[0])
 
 //@ func (e stakingCustomPrecompiledContractRwReDelegate) redelegate(ctx sdk.Context, delegator sdk.AccAddress, srcVal, dstVal sdk.ValAddress, amount sdk.Coin) (err error)
 //@   requires e.contract != nil
-//@   modifies nativeCalls, nativeKind, nativeDelegator, nativeValidator, nativeValidatorSrc, nativeDenom, nativeAmount, nativeLayer, stakingVersion[layer(ctx)], distVersion[layer(ctx)], bankBal[layer(ctx)], authVersion[layer(ctx)], evlog[payload(ctx.EventManager())]
-//@   ensures[C11.redelegate_at_most_one_message] (nativeCalls[0] == old(nativeCalls[0]) || nativeCalls[0] == old(nativeCalls[0]) + 1) && (forall n int :: (0 <= n && n < old(nativeCalls[0])) ==> (nativeKind[n] == old(nativeKind[n]) && nativeDelegator[n] == old(nativeDelegator[n]) && nativeValidator[n] == old(nativeValidator[n]) && nativeValidatorSrc[n] == old(nativeValidatorSrc[n]) && nativeDenom[n] == old(nativeDenom[n]) && nativeAmount[n] == old(nativeAmount[n]) && nativeLayer[n] == old(nativeLayer[n])))
+//@   modifies nativeCalls, nativeKind, nativeDelegator, nativeValidator, nativeValidatorSrc, nativeDenom, nativeAmount, nativeLayer, nativeSigChecks, stakingVersion[layer(ctx)], distVersion[layer(ctx)], bankBal[layer(ctx)], authVersion[layer(ctx)], evlog[payload(ctx.EventManager())]
+//@   ensures[C11.redelegate_at_most_one_message] (nativeCalls[0] == old(nativeCalls[0]) || nativeCalls[0] == old(nativeCalls[0]) + 1) && ((forall n int :: (0 <= n && n < old(nativeCalls[0])) ==> nativeKind[n] == old(nativeKind[n])) && (forall n int :: (0 <= n && n < old(nativeCalls[0])) ==> nativeDelegator[n] == old(nativeDelegator[n])) && (forall n int :: (0 <= n && n < old(nativeCalls[0])) ==> nativeValidator[n] == old(nativeValidator[n])) && (forall n int :: (0 <= n && n < old(nativeCalls[0])) ==> nativeValidatorSrc[n] == old(nativeValidatorSrc[n])) && (forall n int :: (0 <= n && n < old(nativeCalls[0])) ==> nativeDenom[n] == old(nativeDenom[n])) && (forall n int :: (0 <= n && n < old(nativeCalls[0])) ==> nativeAmount[n] == old(nativeAmount[n])) && (forall n int :: (0 <= n && n < old(nativeCalls[0])) ==> nativeLayer[n] == old(nativeLayer[n])) && (forall n int :: (0 <= n && n < old(nativeCalls[0])) ==> nativeSigChecks[n] == old(nativeSigChecks[n])))
 //@   ensures[C11.redelegate_success_means_submitted] err == nil ==> nativeCalls[0] == old(nativeCalls[0]) + 1
-//@   ensures[C11.redelegate_message] nativeCalls[0] == old(nativeCalls[0]) + 1 ==> (nativeKind[old(nativeCalls[0])] == 3 && bech32Bytes(nativeDelegator[old(nativeCalls[0])]) == bytes(delegator) && nativeValidatorSrc[old(nativeCalls[0])] == codecStr(2, bytes(srcVal)) && nativeValidator[old(nativeCalls[0])] == codecStr(2, bytes(dstVal)) && nativeDenom[old(nativeCalls[0])] == amount.Denom && nativeAmount[old(nativeCalls[0])] == iv(amount.Amount) && nativeLayer[old(nativeCalls[0])] == layer(ctx))
+//@   ensures[C11.redelegate_message] nativeCalls[0] == old(nativeCalls[0]) + 1 ==> (nativeKind[old(nativeCalls[0])] == 3 && bech32Bytes(nativeDelegator[old(nativeCalls[0])]) == bytes(delegator) && nativeValidatorSrc[old(nativeCalls[0])] == codecStr(2, bytes(srcVal)) && nativeValidator[old(nativeCalls[0])] == codecStr(2, bytes(dstVal)) && nativeDenom[old(nativeCalls[0])] == amount.Denom && nativeAmount[old(nativeCalls[0])] == iv(amount.Amount) && nativeLayer[old(nativeCalls[0])] == layer(ctx) && nativeSigChecks[old(nativeCalls[0])] == sigChecks[0])
 
 //@ func (e stakingCustomPrecompiledContractRwWithdrawReward) withdrawRewardWithFormattedAddress(ctx sdk.Context, delegator, validator string) (err error)
 //@   requires e.contract != nil
-//@   modifies nativeCalls, nativeKind, nativeDelegator, nativeValidator, nativeValidatorSrc, nativeDenom, nativeAmount, nativeLayer, stakingVersion[layer(ctx)], distVersion[layer(ctx)], bankBal[layer(ctx)], authVersion[layer(ctx)], evlog[payload(ctx.EventManager())]
-//@   ensures[C11.withdrawRewardWithFormattedAddress_at_most_one_message] (nativeCalls[0] == old(nativeCalls[0]) || nativeCalls[0] == old(nativeCalls[0]) + 1) && (forall n int :: (0 <= n && n < old(nativeCalls[0])) ==> (nativeKind[n] == old(nativeKind[n]) && nativeDelegator[n] == old(nativeDelegator[n]) && nativeValidator[n] == old(nativeValidator[n]) && nativeValidatorSrc[n] == old(nativeValidatorSrc[n]) && nativeDenom[n] == old(nativeDenom[n]) && nativeAmount[n] == old(nativeAmount[n]) && nativeLayer[n] == old(nativeLayer[n])))
+//@   modifies nativeCalls, nativeKind, nativeDelegator, nativeValidator, nativeValidatorSrc, nativeDenom, nativeAmount, nativeLayer, nativeSigChecks, stakingVersion[layer(ctx)], distVersion[layer(ctx)], bankBal[layer(ctx)], authVersion[layer(ctx)], evlog[payload(ctx.EventManager())]
+//@   ensures[C11.withdrawRewardWithFormattedAddress_at_most_one_message] (nativeCalls[0] == old(nativeCalls[0]) || nativeCalls[0] == old(nativeCalls[0]) + 1) && ((forall n int :: (0 <= n && n < old(nativeCalls[0])) ==> nativeKind[n] == old(nativeKind[n])) && (forall n int :: (0 <= n && n < old(nativeCalls[0])) ==> nativeDelegator[n] == old(nativeDelegator[n])) && (forall n int :: (0 <= n && n < old(nativeCalls[0])) ==> nativeValidator[n] == old(nativeValidator[n])) && (forall n int :: (0 <= n && n < old(nativeCalls[0])) ==> nativeValidatorSrc[n] == old(nativeValidatorSrc[n])) && (forall n int :: (0 <= n && n < old(nativeCalls[0])) ==> nativeDenom[n] == old(nativeDenom[n])) && (forall n int :: (0 <= n && n < old(nativeCalls[0])) ==> nativeAmount[n] == old(nativeAmount[n])) && (forall n int :: (0 <= n && n < old(nativeCalls[0])) ==> nativeLayer[n] == old(nativeLayer[n])) && (forall n int :: (0 <= n && n < old(nativeCalls[0])) ==> nativeSigChecks[n] == old(nativeSigChecks[n])))
 //@   ensures[C11.withdrawRewardWithFormattedAddress_success_means_submitted] err == nil ==> nativeCalls[0] == old(nativeCalls[0]) + 1
-//@   ensures[C11.withdrawRewardWithFormattedAddress_message] nativeCalls[0] == old(nativeCalls[0]) + 1 ==> (nativeKind[old(nativeCalls[0])] == 4 && nativeDelegator[old(nativeCalls[0])] == delegator && nativeValidator[old(nativeCalls[0])] == validator && nativeLayer[old(nativeCalls[0])] == layer(ctx))
+//@   ensures[C11.withdrawRewardWithFormattedAddress_message] nativeCalls[0] == old(nativeCalls[0]) + 1 ==> (nativeKind[old(nativeCalls[0])] == 4 && nativeDelegator[old(nativeCalls[0])] == delegator && nativeValidator[old(nativeCalls[0])] == validator && nativeLayer[old(nativeCalls[0])] == layer(ctx) && nativeSigChecks[old(nativeCalls[0])] == sigChecks[0])
 
 //@ func (e stakingCustomPrecompiledContractRwWithdrawReward) withdrawReward(ctx sdk.Context, delegator sdk.AccAddress, validator sdk.ValAddress) (err error)
 //@   requires e.contract != nil
-//@   modifies nativeCalls, nativeKind, nativeDelegator, nativeValidator, nativeValidatorSrc, nativeDenom, nativeAmount, nativeLayer, stakingVersion[layer(ctx)], distVersion[layer(ctx)], bankBal[layer(ctx)], authVersion[layer(ctx)], evlog[payload(ctx.EventManager())]
-//@   ensures[C11.withdrawReward_at_most_one_message] (nativeCalls[0] == old(nativeCalls[0]) || nativeCalls[0] == old(nativeCalls[0]) + 1) && (forall n int :: (0 <= n && n < old(nativeCalls[0])) ==> (nativeKind[n] == old(nativeKind[n]) && nativeDelegator[n] == old(nativeDelegator[n]) && nativeValidator[n] == old(nativeValidator[n]) && nativeValidatorSrc[n] == old(nativeValidatorSrc[n]) && nativeDenom[n] == old(nativeDenom[n]) && nativeAmount[n] == old(nativeAmount[n]) && nativeLayer[n] == old(nativeLayer[n])))
+//@   modifies nativeCalls, nativeKind, nativeDelegator, nativeValidator, nativeValidatorSrc, nativeDenom, nativeAmount, nativeLayer, nativeSigChecks, stakingVersion[layer(ctx)], distVersion[layer(ctx)], bankBal[layer(ctx)], authVersion[layer(ctx)], evlog[payload(ctx.EventManager())]
+//@   ensures[C11.withdrawReward_at_most_one_message] (nativeCalls[0] == old(nativeCalls[0]) || nativeCalls[0] == old(nativeCalls[0]) + 1) && ((forall n int :: (0 <= n && n < old(nativeCalls[0])) ==> nativeKind[n] == old(nativeKind[n])) && (forall n int :: (0 <= n && n < old(nativeCalls[0])) ==> nativeDelegator[n] == old(nativeDelegator[n])) && (forall n int :: (0 <= n && n < old(nativeCalls[0])) ==> nativeValidator[n] == old(nativeValidator[n])) && (forall n int :: (0 <= n && n < old(nativeCalls[0])) ==> nativeValidatorSrc[n] == old(nativeValidatorSrc[n])) && (forall n int :: (0 <= n && n < old(nativeCalls[0])) ==> nativeDenom[n] == old(nativeDenom[n])) && (forall n int :: (0 <= n && n < old(nativeCalls[0])) ==> nativeAmount[n] == old(nativeAmount[n])) && (forall n int :: (0 <= n && n < old(nativeCalls[0])) ==> nativeLayer[n] == old(nativeLayer[n])) && (forall n int :: (0 <= n && n < old(nativeCalls[0])) ==> nativeSigChecks[n] == old(nativeSigChecks[n])))
 //@   ensures[C11.withdrawReward_success_means_submitted] err == nil ==> nativeCalls[0] == old(nativeCalls[0]) + 1
-//@   ensures[C11.withdrawReward_message] nativeCalls[0] == old(nativeCalls[0]) + 1 ==> (nativeKind[old(nativeCalls[0])] == 4 && bech32Bytes(nativeDelegator[old(nativeCalls[0])]) == bytes(delegator) && nativeValidator[old(nativeCalls[0])] == codecStr(2, bytes(validator)) && nativeLayer[old(nativeCalls[0])] == layer(ctx))
+//@   ensures[C11.withdrawReward_message] nativeCalls[0] == old(nativeCalls[0]) + 1 ==> (nativeKind[old(nativeCalls[0])] == 4 && bech32Bytes(nativeDelegator[old(nativeCalls[0])]) == bytes(delegator) && nativeValidator[old(nativeCalls[0])] == codecStr(2, bytes(validator)) && nativeLayer[old(nativeCalls[0])] == layer(ctx) && nativeSigChecks[old(nativeCalls[0])] == sigChecks[0])
 
 //@ func (e stakingCustomPrecompiledContractRwDelegate) Execute(caller corevm.ContractRef, contractAddr common.Address, input []byte, env cpcExecutorEnv) (ret []byte, err error)
 //@   requires caller != nil && e.contract != nil && env.evm != nil && env.evm.StateDB != nil
-//@   modifies nativeCalls, nativeKind, nativeDelegator, nativeValidator, nativeValidatorSrc, nativeDenom, nativeAmount, nativeLayer, stakingVersion[layer(env.ctx)], distVersion[layer(env.ctx)], bankBal[layer(env.ctx)], authVersion[layer(env.ctx)], evlog[payload(env.ctx.EventManager())], sdbLogCount[payload(env.evm.StateDB)], sdbLogAddr[payload(env.evm.StateDB)], sdbLogNTopics[payload(env.evm.StateDB)], sdbLogT0[payload(env.evm.StateDB)], sdbLogT1[payload(env.evm.StateDB)], sdbLogT2[payload(env.evm.StateDB)], sdbLogT3[payload(env.evm.StateDB)], sdbLogData[payload(env.evm.StateDB)], sdbOther[payload(env.evm.StateDB)]
-//@   ensures[C11.delegate_call_at_most_one_message] (nativeCalls[0] == old(nativeCalls[0]) || nativeCalls[0] == old(nativeCalls[0]) + 1) && (forall n int :: (0 <= n && n < old(nativeCalls[0])) ==> (nativeKind[n] == old(nativeKind[n]) && nativeDelegator[n] == old(nativeDelegator[n]) && nativeValidator[n] == old(nativeValidator[n]) && nativeValidatorSrc[n] == old(nativeValidatorSrc[n]) && nativeDenom[n] == old(nativeDenom[n]) && nativeAmount[n] == old(nativeAmount[n]) && nativeLayer[n] == old(nativeLayer[n])))
+//@   modifies nativeCalls, nativeKind, nativeDelegator, nativeValidator, nativeValidatorSrc, nativeDenom, nativeAmount, nativeLayer, nativeSigChecks, stakingVersion[layer(env.ctx)], distVersion[layer(env.ctx)], bankBal[layer(env.ctx)], authVersion[layer(env.ctx)], evlog[payload(env.ctx.EventManager())], sdbLogCount[payload(env.evm.StateDB)], sdbLogAddr[payload(env.evm.StateDB)], sdbLogNTopics[payload(env.evm.StateDB)], sdbLogT0[payload(env.evm.StateDB)], sdbLogT1[payload(env.evm.StateDB)], sdbLogT2[payload(env.evm.StateDB)], sdbLogT3[payload(env.evm.StateDB)], sdbLogData[payload(env.evm.StateDB)], sdbOther[payload(env.evm.StateDB)]
+//@   ensures[C11.delegate_call_at_most_one_message] (nativeCalls[0] == old(nativeCalls[0]) || nativeCalls[0] == old(nativeCalls[0]) + 1) && ((forall n int :: (0 <= n && n < old(nativeCalls[0])) ==> nativeKind[n] == old(nativeKind[n])) && (forall n int :: (0 <= n && n < old(nativeCalls[0])) ==> nativeDelegator[n] == old(nativeDelegator[n])) && (forall n int :: (0 <= n && n < old(nativeCalls[0])) ==> nativeValidator[n] == old(nativeValidator[n])) && (forall n int :: (0 <= n && n < old(nativeCalls[0])) ==> nativeValidatorSrc[n] == old(nativeValidatorSrc[n])) && (forall n int :: (0 <= n && n < old(nativeCalls[0])) ==> nativeDenom[n] == old(nativeDenom[n])) && (forall n int :: (0 <= n && n < old(nativeCalls[0])) ==> nativeAmount[n] == old(nativeAmount[n])) && (forall n int :: (0 <= n && n < old(nativeCalls[0])) ==> nativeLayer[n] == old(nativeLayer[n])) && (forall n int :: (0 <= n && n < old(nativeCalls[0])) ==> nativeSigChecks[n] == old(nativeSigChecks[n])))
 //@   ensures[C11.delegate_call_success_means_submitted] err == nil ==> nativeCalls[0] == old(nativeCalls[0]) + 1
 //@   ensures[C11.delegate_call_for_caller_only] nativeCalls[0] == old(nativeCalls[0]) + 1 ==> (bech32Bytes(nativeDelegator[old(nativeCalls[0])]) == addrBytes(caller.Address()) && nativeLayer[old(nativeCalls[0])] == layer(env.ctx))
 //@   ensures[C11.delegate_call_message] nativeCalls[0] == old(nativeCalls[0]) + 1 ==> (nativeKind[old(nativeCalls[0])] == 1 && nativeValidator[old(nativeCalls[0])] == codecStr(2, addrBytes(abiArgAddr(bytes(input), 0))) && nativeDenom[old(nativeCalls[0])] == stakingBondDenom(old(stakingVersion[layer(env.ctx)])) && nativeAmount[old(nativeCalls[0])] == abiArgUint(bytes(input), 1) && nativeAmount[old(nativeCalls[0])] > 0)
@@ -1187,8 +1187,8 @@ package keeper
 
 //@ func (e stakingCustomPrecompiledContractRwUnDelegate) Execute(caller corevm.ContractRef, contractAddr common.Address, input []byte, env cpcExecutorEnv) (ret []byte, err error)
 //@   requires caller != nil && e.contract != nil && env.evm != nil && env.evm.StateDB != nil
-//@   modifies nativeCalls, nativeKind, nativeDelegator, nativeValidator, nativeValidatorSrc, nativeDenom, nativeAmount, nativeLayer, stakingVersion[layer(env.ctx)], distVersion[layer(env.ctx)], bankBal[layer(env.ctx)], authVersion[layer(env.ctx)], evlog[payload(env.ctx.EventManager())], sdbLogCount[payload(env.evm.StateDB)], sdbLogAddr[payload(env.evm.StateDB)], sdbLogNTopics[payload(env.evm.StateDB)], sdbLogT0[payload(env.evm.StateDB)], sdbLogT1[payload(env.evm.StateDB)], sdbLogT2[payload(env.evm.StateDB)], sdbLogT3[payload(env.evm.StateDB)], sdbLogData[payload(env.evm.StateDB)], sdbOther[payload(env.evm.StateDB)]
-//@   ensures[C11.undelegate_call_at_most_one_message] (nativeCalls[0] == old(nativeCalls[0]) || nativeCalls[0] == old(nativeCalls[0]) + 1) && (forall n int :: (0 <= n && n < old(nativeCalls[0])) ==> (nativeKind[n] == old(nativeKind[n]) && nativeDelegator[n] == old(nativeDelegator[n]) && nativeValidator[n] == old(nativeValidator[n]) && nativeValidatorSrc[n] == old(nativeValidatorSrc[n]) && nativeDenom[n] == old(nativeDenom[n]) && nativeAmount[n] == old(nativeAmount[n]) && nativeLayer[n] == old(nativeLayer[n])))
+//@   modifies nativeCalls, nativeKind, nativeDelegator, nativeValidator, nativeValidatorSrc, nativeDenom, nativeAmount, nativeLayer, nativeSigChecks, stakingVersion[layer(env.ctx)], distVersion[layer(env.ctx)], bankBal[layer(env.ctx)], authVersion[layer(env.ctx)], evlog[payload(env.ctx.EventManager())], sdbLogCount[payload(env.evm.StateDB)], sdbLogAddr[payload(env.evm.StateDB)], sdbLogNTopics[payload(env.evm.StateDB)], sdbLogT0[payload(env.evm.StateDB)], sdbLogT1[payload(env.evm.StateDB)], sdbLogT2[payload(env.evm.StateDB)], sdbLogT3[payload(env.evm.StateDB)], sdbLogData[payload(env.evm.StateDB)], sdbOther[payload(env.evm.StateDB)]
+//@   ensures[C11.undelegate_call_at_most_one_message] (nativeCalls[0] == old(nativeCalls[0]) || nativeCalls[0] == old(nativeCalls[0]) + 1) && ((forall n int :: (0 <= n && n < old(nativeCalls[0])) ==> nativeKind[n] == old(nativeKind[n])) && (forall n int :: (0 <= n && n < old(nativeCalls[0])) ==> nativeDelegator[n] == old(nativeDelegator[n])) && (forall n int :: (0 <= n && n < old(nativeCalls[0])) ==> nativeValidator[n] == old(nativeValidator[n])) && (forall n int :: (0 <= n && n < old(nativeCalls[0])) ==> nativeValidatorSrc[n] == old(nativeValidatorSrc[n])) && (forall n int :: (0 <= n && n < old(nativeCalls[0])) ==> nativeDenom[n] == old(nativeDenom[n])) && (forall n int :: (0 <= n && n < old(nativeCalls[0])) ==> nativeAmount[n] == old(nativeAmount[n])) && (forall n int :: (0 <= n && n < old(nativeCalls[0])) ==> nativeLayer[n] == old(nativeLayer[n])) && (forall n int :: (0 <= n && n < old(nativeCalls[0])) ==> nativeSigChecks[n] == old(nativeSigChecks[n])))
 //@   ensures[C11.undelegate_call_success_means_submitted] err == nil ==> nativeCalls[0] == old(nativeCalls[0]) + 1
 //@   ensures[C11.undelegate_call_for_caller_only] nativeCalls[0] == old(nativeCalls[0]) + 1 ==> (bech32Bytes(nativeDelegator[old(nativeCalls[0])]) == addrBytes(caller.Address()) && nativeLayer[old(nativeCalls[0])] == layer(env.ctx))
 //@   ensures[C11.undelegate_call_message] nativeCalls[0] == old(nativeCalls[0]) + 1 ==> (nativeKind[old(nativeCalls[0])] == 2 && nativeValidator[old(nativeCalls[0])] == codecStr(2, addrBytes(abiArgAddr(bytes(input), 0))) && nativeDenom[old(nativeCalls[0])] == stakingBondDenom(old(stakingVersion[layer(env.ctx)])) && nativeAmount[old(nativeCalls[0])] == abiArgUint(bytes(input), 1) && nativeAmount[old(nativeCalls[0])] > 0)
@@ -1196,8 +1196,8 @@ package keeper
 
 //@ func (e stakingCustomPrecompiledContractRwReDelegate) Execute(caller corevm.ContractRef, contractAddr common.Address, input []byte, env cpcExecutorEnv) (ret []byte, err error)
 //@   requires caller != nil && e.contract != nil && env.evm != nil && env.evm.StateDB != nil
-//@   modifies nativeCalls, nativeKind, nativeDelegator, nativeValidator, nativeValidatorSrc, nativeDenom, nativeAmount, nativeLayer, stakingVersion[layer(env.ctx)], distVersion[layer(env.ctx)], bankBal[layer(env.ctx)], authVersion[layer(env.ctx)], evlog[payload(env.ctx.EventManager())], sdbLogCount[payload(env.evm.StateDB)], sdbLogAddr[payload(env.evm.StateDB)], sdbLogNTopics[payload(env.evm.StateDB)], sdbLogT0[payload(env.evm.StateDB)], sdbLogT1[payload(env.evm.StateDB)], sdbLogT2[payload(env.evm.StateDB)], sdbLogT3[payload(env.evm.StateDB)], sdbLogData[payload(env.evm.StateDB)], sdbOther[payload(env.evm.StateDB)]
-//@   ensures[C11.redelegate_call_at_most_one_message] (nativeCalls[0] == old(nativeCalls[0]) || nativeCalls[0] == old(nativeCalls[0]) + 1) && (forall n int :: (0 <= n && n < old(nativeCalls[0])) ==> (nativeKind[n] == old(nativeKind[n]) && nativeDelegator[n] == old(nativeDelegator[n]) && nativeValidator[n] == old(nativeValidator[n]) && nativeValidatorSrc[n] == old(nativeValidatorSrc[n]) && nativeDenom[n] == old(nativeDenom[n]) && nativeAmount[n] == old(nativeAmount[n]) && nativeLayer[n] == old(nativeLayer[n])))
+//@   modifies nativeCalls, nativeKind, nativeDelegator, nativeValidator, nativeValidatorSrc, nativeDenom, nativeAmount, nativeLayer, nativeSigChecks, stakingVersion[layer(env.ctx)], distVersion[layer(env.ctx)], bankBal[layer(env.ctx)], authVersion[layer(env.ctx)], evlog[payload(env.ctx.EventManager())], sdbLogCount[payload(env.evm.StateDB)], sdbLogAddr[payload(env.evm.StateDB)], sdbLogNTopics[payload(env.evm.StateDB)], sdbLogT0[payload(env.evm.StateDB)], sdbLogT1[payload(env.evm.StateDB)], sdbLogT2[payload(env.evm.StateDB)], sdbLogT3[payload(env.evm.StateDB)], sdbLogData[payload(env.evm.StateDB)], sdbOther[payload(env.evm.StateDB)]
+//@   ensures[C11.redelegate_call_at_most_one_message] (nativeCalls[0] == old(nativeCalls[0]) || nativeCalls[0] == old(nativeCalls[0]) + 1) && ((forall n int :: (0 <= n && n < old(nativeCalls[0])) ==> nativeKind[n] == old(nativeKind[n])) && (forall n int :: (0 <= n && n < old(nativeCalls[0])) ==> nativeDelegator[n] == old(nativeDelegator[n])) && (forall n int :: (0 <= n && n < old(nativeCalls[0])) ==> nativeValidator[n] == old(nativeValidator[n])) && (forall n int :: (0 <= n && n < old(nativeCalls[0])) ==> nativeValidatorSrc[n] == old(nativeValidatorSrc[n])) && (forall n int :: (0 <= n && n < old(nativeCalls[0])) ==> nativeDenom[n] == old(nativeDenom[n])) && (forall n int :: (0 <= n && n < old(nativeCalls[0])) ==> nativeAmount[n] == old(nativeAmount[n])) && (forall n int :: (0 <= n && n < old(nativeCalls[0])) ==> nativeLayer[n] == old(nativeLayer[n])) && (forall n int :: (0 <= n && n < old(nativeCalls[0])) ==> nativeSigChecks[n] == old(nativeSigChecks[n])))
 //@   ensures[C11.redelegate_call_success_means_submitted] err == nil ==> nativeCalls[0] == old(nativeCalls[0]) + 1
 //@   ensures[C11.redelegate_call_for_caller_only] nativeCalls[0] == old(nativeCalls[0]) + 1 ==> (bech32Bytes(nativeDelegator[old(nativeCalls[0])]) == addrBytes(caller.Address()) && nativeLayer[old(nativeCalls[0])] == layer(env.ctx))
 //@   ensures[C11.redelegate_call_message] nativeCalls[0] == old(nativeCalls[0]) + 1 ==> (nativeKind[old(nativeCalls[0])] == 3 && nativeValidatorSrc[old(nativeCalls[0])] == codecStr(2, addrBytes(abiArgAddr(bytes(input), 0))) && nativeValidator[old(nativeCalls[0])] == codecStr(2, addrBytes(abiArgAddr(bytes(input), 1))) && nativeDenom[old(nativeCalls[0])] == stakingBondDenom(old(stakingVersion[layer(env.ctx)])) && nativeAmount[old(nativeCalls[0])] == abiArgUint(bytes(input), 2) && nativeAmount[old(nativeCalls[0])] > 0)
@@ -1205,9 +1205,49 @@ package keeper
 
 //@ func (e stakingCustomPrecompiledContractRwWithdrawReward) Execute(caller corevm.ContractRef, contractAddr common.Address, input []byte, env cpcExecutorEnv) (ret []byte, err error)
 //@   requires caller != nil && e.contract != nil && env.evm != nil && env.evm.StateDB != nil
-//@   modifies nativeCalls, nativeKind, nativeDelegator, nativeValidator, nativeValidatorSrc, nativeDenom, nativeAmount, nativeLayer, stakingVersion[layer(env.ctx)], distVersion[layer(env.ctx)], bankBal[layer(env.ctx)], authVersion[layer(env.ctx)], evlog[payload(env.ctx.EventManager())], sdbLogCount[payload(env.evm.StateDB)], sdbLogAddr[payload(env.evm.StateDB)], sdbLogNTopics[payload(env.evm.StateDB)], sdbLogT0[payload(env.evm.StateDB)], sdbLogT1[payload(env.evm.StateDB)], sdbLogT2[payload(env.evm.StateDB)], sdbLogT3[payload(env.evm.StateDB)], sdbLogData[payload(env.evm.StateDB)], sdbOther[payload(env.evm.StateDB)]
-//@   ensures[C11.withdraw_reward_call_at_most_one_message] (nativeCalls[0] == old(nativeCalls[0]) || nativeCalls[0] == old(nativeCalls[0]) + 1) && (forall n int :: (0 <= n && n < old(nativeCalls[0])) ==> (nativeKind[n] == old(nativeKind[n]) && nativeDelegator[n] == old(nativeDelegator[n]) && nativeValidator[n] == old(nativeValidator[n]) && nativeValidatorSrc[n] == old(nativeValidatorSrc[n]) && nativeDenom[n] == old(nativeDenom[n]) && nativeAmount[n] == old(nativeAmount[n]) && nativeLayer[n] == old(nativeLayer[n])))
+//@   modifies nativeCalls, nativeKind, nativeDelegator, nativeValidator, nativeValidatorSrc, nativeDenom, nativeAmount, nativeLayer, nativeSigChecks, stakingVersion[layer(env.ctx)], distVersion[layer(env.ctx)], bankBal[layer(env.ctx)], authVersion[layer(env.ctx)], evlog[payload(env.ctx.EventManager())], sdbLogCount[payload(env.evm.StateDB)], sdbLogAddr[payload(env.evm.StateDB)], sdbLogNTopics[payload(env.evm.StateDB)], sdbLogT0[payload(env.evm.StateDB)], sdbLogT1[payload(env.evm.StateDB)], sdbLogT2[payload(env.evm.StateDB)], sdbLogT3[payload(env.evm.StateDB)], sdbLogData[payload(env.evm.StateDB)], sdbOther[payload(env.evm.StateDB)]
+//@   ensures[C11.withdraw_reward_call_at_most_one_message] (nativeCalls[0] == old(nativeCalls[0]) || nativeCalls[0] == old(nativeCalls[0]) + 1) && ((forall n int :: (0 <= n && n < old(nativeCalls[0])) ==> nativeKind[n] == old(nativeKind[n])) && (forall n int :: (0 <= n && n < old(nativeCalls[0])) ==> nativeDelegator[n] == old(nativeDelegator[n])) && (forall n int :: (0 <= n && n < old(nativeCalls[0])) ==> nativeValidator[n] == old(nativeValidator[n])) && (forall n int :: (0 <= n && n < old(nativeCalls[0])) ==> nativeValidatorSrc[n] == old(nativeValidatorSrc[n])) && (forall n int :: (0 <= n && n < old(nativeCalls[0])) ==> nativeDenom[n] == old(nativeDenom[n])) && (forall n int :: (0 <= n && n < old(nativeCalls[0])) ==> nativeAmount[n] == old(nativeAmount[n])) && (forall n int :: (0 <= n && n < old(nativeCalls[0])) ==> nativeLayer[n] == old(nativeLayer[n])) && (forall n int :: (0 <= n && n < old(nativeCalls[0])) ==> nativeSigChecks[n] == old(nativeSigChecks[n])))
 //@   ensures[C11.withdraw_reward_call_success_means_submitted] err == nil ==> nativeCalls[0] == old(nativeCalls[0]) + 1
 //@   ensures[C11.withdraw_reward_call_for_caller_only] nativeCalls[0] == old(nativeCalls[0]) + 1 ==> (bech32Bytes(nativeDelegator[old(nativeCalls[0])]) == addrBytes(caller.Address()) && nativeLayer[old(nativeCalls[0])] == layer(env.ctx))
 //@   ensures[C11.withdraw_reward_call_message] nativeCalls[0] == old(nativeCalls[0]) + 1 ==> (nativeKind[old(nativeCalls[0])] == 4 && nativeValidator[old(nativeCalls[0])] == codecStr(2, addrBytes(abiArgAddr(bytes(input), 0))))
+
+// withdrawRewards(delegator): queries the pending rewards, then submits one MsgWithdrawDelegatorReward per selected
+// validator. Every message it submits is a reward withdrawal of THAT delegator on the call's layer.
+// (Which validators are selected — those whose truncated bond-denom reward reaches the minimum — is not decided here.)
+//@ func (e stakingCustomPrecompiledContractRwWithdrawRewards) withdrawRewards(ctx sdk.Context, delegator sdk.AccAddress) (any bool, err error)
+//@   requires e.withdrawReward.contract != nil
+//@   modifies nativeCalls, nativeKind, nativeDelegator, nativeValidator, nativeValidatorSrc, nativeDenom, nativeAmount, nativeLayer, nativeSigChecks, stakingVersion[layer(ctx)], distVersion[layer(ctx)], bankBal[layer(ctx)], authVersion[layer(ctx)], evlog[payload(ctx.EventManager())], e.withdrawReward.contract.cacheStakingMetadata
+//@   ensures[C11.withdraw_rewards_only_grows] nativeCalls[0] >= old(nativeCalls[0]) && ((forall n int :: (0 <= n && n < old(nativeCalls[0])) ==> nativeKind[n] == old(nativeKind[n])) && (forall n int :: (0 <= n && n < old(nativeCalls[0])) ==> nativeDelegator[n] == old(nativeDelegator[n])) && (forall n int :: (0 <= n && n < old(nativeCalls[0])) ==> nativeValidator[n] == old(nativeValidator[n])) && (forall n int :: (0 <= n && n < old(nativeCalls[0])) ==> nativeValidatorSrc[n] == old(nativeValidatorSrc[n])) && (forall n int :: (0 <= n && n < old(nativeCalls[0])) ==> nativeDenom[n] == old(nativeDenom[n])) && (forall n int :: (0 <= n && n < old(nativeCalls[0])) ==> nativeAmount[n] == old(nativeAmount[n])) && (forall n int :: (0 <= n && n < old(nativeCalls[0])) ==> nativeLayer[n] == old(nativeLayer[n])) && (forall n int :: (0 <= n && n < old(nativeCalls[0])) ==> nativeSigChecks[n] == old(nativeSigChecks[n])))
+//@   ensures[C11.withdraw_rewards_for_delegator_only] (forall n int :: (old(nativeCalls[0]) <= n && n < nativeCalls[0]) ==> (nativeKind[n] == 4 && bech32Bytes(nativeDelegator[n]) == bytes(delegator) && nativeLayer[n] == layer(ctx) && nativeSigChecks[n] == sigChecks[0]))
+//@ loop 2
+//@   modifies nativeCalls, nativeKind, nativeDelegator, nativeValidator, nativeValidatorSrc, nativeDenom, nativeAmount, nativeLayer, nativeSigChecks, stakingVersion[layer(ctx)], distVersion[layer(ctx)], bankBal[layer(ctx)], authVersion[layer(ctx)], evlog[payload(ctx.EventManager())]
+//@   invariant nativeCalls[0] >= old(nativeCalls[0]) && sigChecks[0] == old(sigChecks[0]) && bech32Bytes(delegatorAddrStr) == bytes(delegator) && ((forall n int :: (0 <= n && n < old(nativeCalls[0])) ==> nativeKind[n] == old(nativeKind[n])) && (forall n int :: (0 <= n && n < old(nativeCalls[0])) ==> nativeDelegator[n] == old(nativeDelegator[n])) && (forall n int :: (0 <= n && n < old(nativeCalls[0])) ==> nativeValidator[n] == old(nativeValidator[n])) && (forall n int :: (0 <= n && n < old(nativeCalls[0])) ==> nativeValidatorSrc[n] == old(nativeValidatorSrc[n])) && (forall n int :: (0 <= n && n < old(nativeCalls[0])) ==> nativeDenom[n] == old(nativeDenom[n])) && (forall n int :: (0 <= n && n < old(nativeCalls[0])) ==> nativeAmount[n] == old(nativeAmount[n])) && (forall n int :: (0 <= n && n < old(nativeCalls[0])) ==> nativeLayer[n] == old(nativeLayer[n])) && (forall n int :: (0 <= n && n < old(nativeCalls[0])) ==> nativeSigChecks[n] == old(nativeSigChecks[n])))
+//@   invariant (forall n int :: (old(nativeCalls[0]) <= n && n < nativeCalls[0]) ==> (nativeKind[n] == 4 && nativeDelegator[n] == delegatorAddrStr && nativeLayer[n] == layer(ctx) && nativeSigChecks[n] == sigChecks[0]))
+
+//@ func (e stakingCustomPrecompiledContractRwWithdrawRewards) Execute(caller corevm.ContractRef, contractAddr common.Address, input []byte, env cpcExecutorEnv) (ret []byte, err error)
+//@   requires caller != nil && e.withdrawReward.contract != nil && env.evm != nil && env.evm.StateDB != nil
+//@   modifies nativeCalls, nativeKind, nativeDelegator, nativeValidator, nativeValidatorSrc, nativeDenom, nativeAmount, nativeLayer, nativeSigChecks, stakingVersion[layer(env.ctx)], distVersion[layer(env.ctx)], bankBal[layer(env.ctx)], authVersion[layer(env.ctx)], evlog[payload(env.ctx.EventManager())], sdbLogCount[payload(env.evm.StateDB)], sdbLogAddr[payload(env.evm.StateDB)], sdbLogNTopics[payload(env.evm.StateDB)], sdbLogT0[payload(env.evm.StateDB)], sdbLogT1[payload(env.evm.StateDB)], sdbLogT2[payload(env.evm.StateDB)], sdbLogT3[payload(env.evm.StateDB)], sdbLogData[payload(env.evm.StateDB)], sdbOther[payload(env.evm.StateDB)], e.withdrawReward.contract.cacheStakingMetadata
+//@   ensures[C11.withdraw_rewards_call_only_grows] nativeCalls[0] >= old(nativeCalls[0]) && ((forall n int :: (0 <= n && n < old(nativeCalls[0])) ==> nativeKind[n] == old(nativeKind[n])) && (forall n int :: (0 <= n && n < old(nativeCalls[0])) ==> nativeDelegator[n] == old(nativeDelegator[n])) && (forall n int :: (0 <= n && n < old(nativeCalls[0])) ==> nativeValidator[n] == old(nativeValidator[n])) && (forall n int :: (0 <= n && n < old(nativeCalls[0])) ==> nativeValidatorSrc[n] == old(nativeValidatorSrc[n])) && (forall n int :: (0 <= n && n < old(nativeCalls[0])) ==> nativeDenom[n] == old(nativeDenom[n])) && (forall n int :: (0 <= n && n < old(nativeCalls[0])) ==> nativeAmount[n] == old(nativeAmount[n])) && (forall n int :: (0 <= n && n < old(nativeCalls[0])) ==> nativeLayer[n] == old(nativeLayer[n])) && (forall n int :: (0 <= n && n < old(nativeCalls[0])) ==> nativeSigChecks[n] == old(nativeSigChecks[n])))
+//@   ensures[C11.withdraw_rewards_call_for_caller_only] (forall n int :: (old(nativeCalls[0]) <= n && n < nativeCalls[0]) ==> (nativeKind[n] == 4 && bech32Bytes(nativeDelegator[n]) == addrBytes(caller.Address()) && nativeLayer[n] == layer(env.ctx)))
+
+// delegateByActionMessage(message, r, s, v): the signed staking message. No native message is submitted unless the message's
+// delegator IS the caller and an EIP-712 signature check for the caller's address (VerifySignature(caller, message, r, s, v,
+// chain id of the EVM)) has succeeded BEFORE it; at most one native message; it carries the caller as delegator and a
+// positive amount.
+//@ func (e stakingCustomPrecompiledContractRwDelegateByActionMessage) Execute(caller corevm.ContractRef, contractAddr common.Address, input []byte, env cpcExecutorEnv) (ret []byte, err error)
+//@   requires caller != nil && e.delegate.contract != nil && e.undelegate.contract != nil && e.redelegate.contract != nil && env.evm != nil && env.evm.StateDB != nil
+//@   modifies nativeCalls, nativeKind, nativeDelegator, nativeValidator, nativeValidatorSrc, nativeDenom, nativeAmount, nativeLayer, nativeSigChecks, sigChecks, sigCheckExpected, sigCheckMsg, sigCheckChain, sigCheckOk, stakingVersion[layer(env.ctx)], distVersion[layer(env.ctx)], bankBal[layer(env.ctx)], authVersion[layer(env.ctx)], evlog[payload(env.ctx.EventManager())], sdbLogCount[payload(env.evm.StateDB)], sdbLogAddr[payload(env.evm.StateDB)], sdbLogNTopics[payload(env.evm.StateDB)], sdbLogT0[payload(env.evm.StateDB)], sdbLogT1[payload(env.evm.StateDB)], sdbLogT2[payload(env.evm.StateDB)], sdbLogT3[payload(env.evm.StateDB)], sdbLogData[payload(env.evm.StateDB)], sdbOther[payload(env.evm.StateDB)]
+//@   ensures[C11.signed_staking_at_most_one_message] (nativeCalls[0] == old(nativeCalls[0]) || nativeCalls[0] == old(nativeCalls[0]) + 1) && ((forall n int :: (0 <= n && n < old(nativeCalls[0])) ==> nativeKind[n] == old(nativeKind[n])) && (forall n int :: (0 <= n && n < old(nativeCalls[0])) ==> nativeDelegator[n] == old(nativeDelegator[n])) && (forall n int :: (0 <= n && n < old(nativeCalls[0])) ==> nativeValidator[n] == old(nativeValidator[n])) && (forall n int :: (0 <= n && n < old(nativeCalls[0])) ==> nativeValidatorSrc[n] == old(nativeValidatorSrc[n])) && (forall n int :: (0 <= n && n < old(nativeCalls[0])) ==> nativeDenom[n] == old(nativeDenom[n])) && (forall n int :: (0 <= n && n < old(nativeCalls[0])) ==> nativeAmount[n] == old(nativeAmount[n])) && (forall n int :: (0 <= n && n < old(nativeCalls[0])) ==> nativeLayer[n] == old(nativeLayer[n])) && (forall n int :: (0 <= n && n < old(nativeCalls[0])) ==> nativeSigChecks[n] == old(nativeSigChecks[n])))
+//@   ensures[C11.signed_staking_for_caller_only] (forall n int :: (old(nativeCalls[0]) <= n && n < nativeCalls[0]) ==> (bech32Bytes(nativeDelegator[n]) == addrBytes(caller.Address()) && nativeLayer[n] == layer(env.ctx) && 1 <= nativeKind[n] && nativeKind[n] <= 3 && nativeAmount[n] > 0))
+//@   ensures[C11.signed_staking_verified_before_native] (forall n int :: (old(nativeCalls[0]) <= n && n < nativeCalls[0]) ==> ((nativeSigChecks[n] > old(sigChecks[0]) && sigCheckOk[nativeSigChecks[n] - 1] && sigCheckExpected[nativeSigChecks[n] - 1] == caller.Address())))
+//@   ensures[C11.signed_staking_chain_bound] (forall n int :: (old(nativeCalls[0]) <= n && n < nativeCalls[0]) ==> (sigCheckChain[nativeSigChecks[n] - 1] == env.evm.ChainConfig().ChainID))
+
+// withdrawRewardsByMessage(message, r, s, v): the signed withdrawal message; same rule.
+//@ func (e stakingCustomPrecompiledContractRwWithdrawRewardsByMessage) Execute(caller corevm.ContractRef, contractAddr common.Address, input []byte, env cpcExecutorEnv) (ret []byte, err error)
+//@   requires caller != nil && e.withdrawReward.contract != nil && e.withdrawRewards.withdrawReward.contract != nil && env.evm != nil && env.evm.StateDB != nil
+//@   modifies nativeCalls, nativeKind, nativeDelegator, nativeValidator, nativeValidatorSrc, nativeDenom, nativeAmount, nativeLayer, nativeSigChecks, sigChecks, sigCheckExpected, sigCheckMsg, sigCheckChain, sigCheckOk, stakingVersion[layer(env.ctx)], distVersion[layer(env.ctx)], bankBal[layer(env.ctx)], authVersion[layer(env.ctx)], evlog[payload(env.ctx.EventManager())], sdbLogCount[payload(env.evm.StateDB)], sdbLogAddr[payload(env.evm.StateDB)], sdbLogNTopics[payload(env.evm.StateDB)], sdbLogT0[payload(env.evm.StateDB)], sdbLogT1[payload(env.evm.StateDB)], sdbLogT2[payload(env.evm.StateDB)], sdbLogT3[payload(env.evm.StateDB)], sdbLogData[payload(env.evm.StateDB)], sdbOther[payload(env.evm.StateDB)], e.withdrawRewards.withdrawReward.contract.cacheStakingMetadata
+//@   ensures[C11.signed_withdraw_only_grows] nativeCalls[0] >= old(nativeCalls[0]) && ((forall n int :: (0 <= n && n < old(nativeCalls[0])) ==> nativeKind[n] == old(nativeKind[n])) && (forall n int :: (0 <= n && n < old(nativeCalls[0])) ==> nativeDelegator[n] == old(nativeDelegator[n])) && (forall n int :: (0 <= n && n < old(nativeCalls[0])) ==> nativeValidator[n] == old(nativeValidator[n])) && (forall n int :: (0 <= n && n < old(nativeCalls[0])) ==> nativeValidatorSrc[n] == old(nativeValidatorSrc[n])) && (forall n int :: (0 <= n && n < old(nativeCalls[0])) ==> nativeDenom[n] == old(nativeDenom[n])) && (forall n int :: (0 <= n && n < old(nativeCalls[0])) ==> nativeAmount[n] == old(nativeAmount[n])) && (forall n int :: (0 <= n && n < old(nativeCalls[0])) ==> nativeLayer[n] == old(nativeLayer[n])) && (forall n int :: (0 <= n && n < old(nativeCalls[0])) ==> nativeSigChecks[n] == old(nativeSigChecks[n])))
+//@   ensures[C11.signed_withdraw_for_caller_only] (forall n int :: (old(nativeCalls[0]) <= n && n < nativeCalls[0]) ==> (nativeKind[n] == 4 && bech32Bytes(nativeDelegator[n]) == addrBytes(caller.Address()) && nativeLayer[n] == layer(env.ctx)))
+//@   ensures[C11.signed_withdraw_verified_before_native] (forall n int :: (old(nativeCalls[0]) <= n && n < nativeCalls[0]) ==> ((nativeSigChecks[n] > old(sigChecks[0]) && sigCheckOk[nativeSigChecks[n] - 1] && sigCheckExpected[nativeSigChecks[n] - 1] == caller.Address())))
+//@   ensures[C11.signed_withdraw_chain_bound] (forall n int :: (old(nativeCalls[0]) <= n && n < nativeCalls[0]) ==> (sigCheckChain[nativeSigChecks[n] - 1] == env.evm.ChainConfig().ChainID))
 
